@@ -34,20 +34,22 @@ RDiv(p, q) == RNorm(<<p[1] * q[2], p[2] * q[1]>>)
 RLe(p, q) == p[1] * q[2] <= q[1] * p[2]
 RLt(p, q) == p[1] * q[2] < q[1] * p[2]
 RI(n) == <<n, 1>>
+NONE == <<0, 0>>          \* "not given" (a rational with denominator 0)
+IsNone(x) == x[2] = 0
 
 VARIABLES data, cfg, lo, hi, out, phase
 vars == <<data, cfg, lo, hi, out, phase>>
 
 Finite(d) == SelectSeq(d, IsFinite)
-RECURSIVE SortSeq(_)
-SortSeq(s) == IF s = <<>> THEN <<>>
+RECURSIVE SortAsc(_)
+SortAsc(s) == IF s = <<>> THEN <<>>
               ELSE LET m == CHOOSE i \in DOMAIN s : \A j \in DOMAIN s : s[i] <= s[j]
-                   IN <<s[m]>> \o SortSeq([k \in 1..(Len(s) - 1) |-> IF k < m THEN s[k] ELSE s[k + 1]])
-MinF(d) == SortSeq(Finite(d))[1]
-MaxF(d) == SortSeq(Finite(d))[Len(Finite(d))]
+                   IN <<s[m]>> \o SortAsc([k \in 1..(Len(s) - 1) |-> IF k < m THEN s[k] ELSE s[k + 1]])
+MinF(d) == SortAsc(Finite(d))[1]
+MaxF(d) == SortAsc(Finite(d))[Len(Finite(d))]
 \* numpy.quantile, linear interpolation: position h = (n - 1) q
 Quantile(d, q) ==
-  LET srt == SortSeq(Finite(d))  nn == Len(srt)
+  LET srt == SortAsc(Finite(d))  nn == Len(srt)
       h == RMul(RI(nn - 1), q)
       fl == h[1] \div h[2]
       frac == RSub(h, RI(fl))
@@ -55,19 +57,20 @@ Quantile(d, q) ==
      ELSE RAdd(RI(srt[fl + 1]), RMul(frac, RI(srt[fl + 2] - srt[fl + 1])))
 
 Limits(d, c) ==
-  CASE c.t = "manual"   -> <<IF c.lo = "none" THEN RI(MinF(d)) ELSE c.lo, IF c.hi = "none" THEN RI(MaxF(d)) ELSE c.hi>>
-    [] c.t = "centered" -> LET h == IF c.h = "none"
+  CASE c.t = "manual"   -> <<IF IsNone(c.lo) THEN RI(MinF(d)) ELSE c.lo, IF IsNone(c.hi) THEN RI(MaxF(d)) ELSE c.hi>>
+    [] c.t = "centered" -> LET h == IF IsNone(c.h2)
                                     THEN (LET a == RSub(RI(MinF(d)), c.c)  b == RSub(RI(MaxF(d)), c.c)
                                               aa == IF a[1] < 0 THEN <<-a[1], a[2]>> ELSE a
                                               bb == IF b[1] < 0 THEN <<-b[1], b[2]>> ELSE b
                                           IN IF RLe(aa, bb) THEN bb ELSE aa)
-                                    ELSE c.h
+                                    ELSE c.h2
                            IN <<RSub(c.c, h), RAdd(c.c, h)>>
     [] OTHER -> <<Quantile(d, c.ql), Quantile(d, c.qu)>>
 
-Cfgs == {[t |-> "manual", lo |-> l, hi |-> h] : l \in {"none", <<-1, 1>>, <<1, 1>>, <<1, 2>>}, h \in {"none", <<3, 1>>, <<5, 2>>}}
-        \cup {[t |-> "centered", c |-> c, h |-> h] : c \in {<<0, 1>>, <<2, 1>>}, h \in {"none", <<1, 1>>, <<3, 1>>}}
-        \cup {[t |-> "quantile", ql |-> q[1], qu |-> q[2]] : q \in {<< <<0, 1>>, <<1, 1>> >>, << <<1, 4>>, <<3, 4>> >>,
+Z == <<0, 1>>
+Cfgs == {[t |-> "manual", lo |-> l, hi |-> h, c |-> Z, h2 |-> NONE, ql |-> Z, qu |-> Z] : l \in {NONE, <<-1, 1>>, <<1, 1>>, <<1, 2>>}, h \in {NONE, <<3, 1>>, <<5, 2>>}}
+        \cup {[t |-> "centered", lo |-> NONE, hi |-> NONE, c |-> c, h2 |-> h, ql |-> Z, qu |-> Z] : c \in {<<0, 1>>, <<2, 1>>}, h \in {NONE, <<1, 1>>, <<3, 1>>}}
+        \cup {[t |-> "quantile", lo |-> NONE, hi |-> NONE, c |-> Z, h2 |-> NONE, ql |-> q[1], qu |-> q[2]] : q \in {<< <<0, 1>>, <<1, 1>> >>, << <<1, 4>>, <<3, 4>> >>,
                                                                   << <<0, 1>>, <<1, 2>> >>, << <<1, 50>>, <<49, 50>> >>}}
 
 Clip01(u) == IF RLt(u, RI(0)) THEN (IF ClipBug THEN u ELSE RI(0)) ELSE IF RLt(RI(1), u) THEN RI(1) ELSE u
